@@ -500,6 +500,11 @@ def pick_sites(prog, f, g, d, kinds_loc):
                 kind = hits[0]
             elif len(hits) > 1:
                 kind = 'cores' if recv.id.startswith('core') else 'gpus'
+        # only single indices are picks: appending a slice / list of already
+        # picked indices (core_map built from cores) is regrouping
+        if c.args and isinstance(c.args[0], ast.Subscript) and \
+                isinstance(c.args[0].slice, ast.Slice):
+            continue
         if kind and id(c) in smap:
             out.append((smap[id(c)], c, kind))
     return out
